@@ -329,10 +329,13 @@ Definition is_adc_amplitude (c : names) (name : str) : bool :=
   str_eqb name (n_left c) || str_eqb name (n_right c).
 
 (* the kind dispatch of import_tensor for a name with upper and lower indices
-   (func.py:150-159) *)
+   (func.py:150-163): amplitudes, Coulomb integrals, symbolic orbital-energy
+   denominators (SymmetricTensor, as EriOrbenergy.symbolic_denominator builds
+   them), everything else AntiSymmetricTensor *)
 Definition kind_of_name (c : names) (name : str) : kind :=
   if is_adc_amplitude c name || is_t_amplitude c name then KAmp
   else if str_eqb name (n_coulomb c) then KSym
+  else if str_eqb name (n_sym_orb_denom c) then KSym
   else KAnti.
 
 (* _split_default_t_amplitude / _split_default_gs_density / map_default_name *)
